@@ -288,7 +288,24 @@ def injection_sweep(frame, obj, nxt, where):
             pass
     gc.collect()
     before = [sys.getrefcount(o) for o in tracked]
-    _injection_sweep(frame, obj, nxt, where)
+    # The faults are injected by a trace function that raises.  On CPython 3.11/3.12 a trace function raising at certain
+    # line events inside an `except` block leaves the exception that block was handling in the thread's exc_info for
+    # good (reproduced without stackscope), and that exception's traceback holds every frame of the call chain.  The
+    # sweep therefore runs in a thread of its own: whatever the interpreter leaks into that thread state dies with it.
+    import threading
+    box = {}
+
+    def in_thread():
+        try:
+            _injection_sweep(frame, obj, nxt, where)
+        except BaseException as ex:       # a harness problem: hand it to the caller
+            box["exc"] = ex
+    t = threading.Thread(target=in_thread)
+    t.start()
+    t.join()
+    del t
+    if "exc" in box:
+        raise box.pop("exc")
     gc.collect()
     after = [sys.getrefcount(o) for o in tracked]
     S.bump("inject.retention_checks")
